@@ -73,6 +73,10 @@ namespace nmtools::utl
         {
             // TODO: assert/throw
             if (new_size <= Capacity) {
+                // value-initialize newly exposed elements, like std::vector
+                for (size_type i=size_; i<new_size; i++) {
+                    buffer[(index_type)i] = T{};
+                }
                 size_ = new_size;
             }
         }
